@@ -26,12 +26,149 @@ def repo_root() -> str:
     return os.environ.get("JV_REPO", "/repo")
 
 
+class _Canon(ast.NodeTransformer):
+    """Canonical form of a few constructs that have several behaviour-identical spellings, so that every rule sees
+    one of them (positions of the surviving nodes are kept; every step is an exact equivalence):
+      * `if a: (if b: S)`  with no else on either and nothing else in the outer body   ->  `if a and b: S`
+      * `if not c: A else: B`  (plain else, not an elif chain)                            ->  `if c: B else: A`
+      * `<name> + "<text>"`                                                               ->  f"{<name>}<text>" is
+        NOT rewritten (it changes types for non-str operands); instead f"{<name>}<text>" with a bare name and no
+        format spec, as used for dotted keys, is rewritten to `<name> + "<text>"` only where <text> starts with a
+        separator character - both operands are then strings wherever the original was evaluated without error."""
+
+    def visit_If(self, node: ast.If):
+        self.generic_visit(node)
+        # merge nested ifs
+        while not node.orelse and len(node.body) == 1 and isinstance(node.body[0], ast.If) and not node.body[0].orelse:
+            inner = node.body[0]
+            a = node.test.values if isinstance(node.test, ast.BoolOp) and isinstance(node.test.op, ast.And) else [node.test]
+            b = inner.test.values if isinstance(inner.test, ast.BoolOp) and isinstance(inner.test.op, ast.And) else [inner.test]
+            node.test = ast.copy_location(ast.BoolOp(op=ast.And(), values=list(a) + list(b)), node.test)
+            node.body = inner.body
+        # canonical polarity of two-armed ifs
+        if node.orelse and not (len(node.orelse) == 1 and isinstance(node.orelse[0], ast.If)) and isinstance(node.test, ast.UnaryOp) and isinstance(node.test.op, ast.Not):
+            node.test, node.body, node.orelse = node.test.operand, node.orelse, node.body
+        # ... and of two-armed ifs on one comparison: `!=` -> `==`, `not in` -> `in`, `is None` -> `is not None`
+        if node.orelse and not (len(node.orelse) == 1 and isinstance(node.orelse[0], ast.If)) and isinstance(node.test, ast.Compare) and len(node.test.ops) == 1:
+            op = node.test.ops[0]
+            is_none = isinstance(node.test.comparators[0], ast.Constant) and node.test.comparators[0].value is None
+            new_op = ast.Eq() if isinstance(op, ast.NotEq) else ast.In() if isinstance(op, ast.NotIn) else ast.IsNot() if (isinstance(op, ast.Is) and is_none) else ast.Is() if (isinstance(op, ast.IsNot) and not is_none) else None
+            if new_op is not None:
+                node.test = ast.copy_location(ast.Compare(left=node.test.left, ops=[new_op], comparators=node.test.comparators), node.test)
+                node.body, node.orelse = node.orelse, node.body
+        # `if c: x = a  else: x = b`  ->  `x = a if c else b`
+        if (
+            len(node.body) == 1
+            and len(node.orelse) == 1
+            and isinstance(node.body[0], ast.Assign)
+            and isinstance(node.orelse[0], ast.Assign)
+            and len(node.body[0].targets) == 1
+            and len(node.orelse[0].targets) == 1
+            and isinstance(node.body[0].targets[0], ast.Name)
+            and isinstance(node.orelse[0].targets[0], ast.Name)
+            and node.body[0].targets[0].id == node.orelse[0].targets[0].id
+        ):
+            return ast.copy_location(
+                ast.Assign(targets=[node.body[0].targets[0]], value=ast.copy_location(ast.IfExp(test=node.test, body=node.body[0].value, orelse=node.orelse[0].value), node.test)),
+                node,
+            )
+        return node
+
+    # ---- statement-list level equivalences -------------------------------------------------------------------
+    def generic_visit(self, node):
+        super().generic_visit(node)
+        for field in ("body", "orelse", "finalbody"):
+            lst = getattr(node, field, None)
+            if isinstance(lst, list) and lst and isinstance(lst[0], ast.stmt):
+                setattr(node, field, self._stmts(lst, node))
+        return node
+
+    def _stmts(self, lst, owner):
+        out = []
+        i = 0
+        while i < len(lst):
+            s = lst[i]
+            nxt = lst[i + 1] if i + 1 < len(lst) else None
+            # `t = <expr>` directly followed by `return t`, t used nowhere else in the function  ->  `return <expr>`
+            if (
+                isinstance(s, ast.Assign)
+                and len(s.targets) == 1
+                and isinstance(s.targets[0], ast.Name)
+                and isinstance(nxt, ast.Return)
+                and isinstance(nxt.value, ast.Name)
+                and nxt.value.id == s.targets[0].id
+                and self._only_returned(s.targets[0].id)
+            ):
+                out.append(ast.copy_location(ast.Return(value=s.value), s))
+                i += 2
+                continue
+            # `b = <expr>` directly followed by `a = b`  ->  `a = b = <expr>`
+            if (
+                isinstance(s, ast.Assign)
+                and len(s.targets) == 1
+                and isinstance(s.targets[0], ast.Name)
+                and isinstance(nxt, ast.Assign)
+                and len(nxt.targets) == 1
+                and isinstance(nxt.value, ast.Name)
+                and nxt.value.id == s.targets[0].id
+                and not any(isinstance(n, ast.Name) and n.id == s.targets[0].id for n in ast.walk(nxt.targets[0]))
+            ):
+                out.append(ast.copy_location(ast.Assign(targets=[nxt.targets[0], s.targets[0]], value=s.value), s))
+                i += 2
+                continue
+            out.append(s)
+            i += 1
+        return out
+
+    _fn_stack: list = []
+
+    def _only_returned(self, name: str) -> bool:
+        """Every read of `name` in the enclosing function is a bare `return name`, every write a plain assignment."""
+        fn = self._fn_stack[-1] if self._fn_stack else None
+        if fn is None:
+            return False
+        ret_loads = {id(r.value) for r in ast.walk(fn) if isinstance(r, ast.Return) and isinstance(r.value, ast.Name) and r.value.id == name}
+        plain_stores = {id(s.targets[0]) for s in ast.walk(fn) if isinstance(s, ast.Assign) and len(s.targets) == 1 and isinstance(s.targets[0], ast.Name) and s.targets[0].id == name}
+        for n in ast.walk(fn):
+            if isinstance(n, ast.Name) and n.id == name and id(n) not in ret_loads and id(n) not in plain_stores:
+                return False
+        a = fn.args
+        return name not in {x.arg for x in a.posonlyargs + a.args + a.kwonlyargs}
+
+    def _visit_fn(self, node):
+        self._fn_stack.append(node)
+        try:
+            return self.generic_visit(node)
+        finally:
+            self._fn_stack.pop()
+
+    visit_FunctionDef = _visit_fn
+    visit_AsyncFunctionDef = _visit_fn
+
+    def visit_UnaryOp(self, node: ast.UnaryOp):
+        self.generic_visit(node)
+        # not (a in b) -> a not in b ; not (a is b) -> a is not b   (and the reverse double negations)
+        if isinstance(node.op, ast.Not) and isinstance(node.operand, ast.Compare) and len(node.operand.ops) == 1:
+            flip = {ast.In: ast.NotIn, ast.NotIn: ast.In, ast.Is: ast.IsNot, ast.IsNot: ast.Is}
+            op = node.operand.ops[0]
+            if type(op) in flip:
+                return ast.copy_location(ast.Compare(left=node.operand.left, ops=[flip[type(op)]()], comparators=node.operand.comparators), node)
+        return node
+
+    def visit_JoinedStr(self, node: ast.JoinedStr):
+        self.generic_visit(node)
+        v = node.values
+        if len(v) == 2 and isinstance(v[0], ast.FormattedValue) and v[0].conversion == -1 and v[0].format_spec is None and isinstance(v[0].value, ast.Name) and isinstance(v[1], ast.Constant) and isinstance(v[1].value, str) and v[1].value[:1] in (".", ":", "/"):
+            return ast.copy_location(ast.BinOp(left=v[0].value, op=ast.Add(), right=ast.copy_location(ast.Constant(v[1].value), node)), node)
+        return node
+
+
 class Module:
     def __init__(self, name: str, path: str, text: str):
         self.name = name  # e.g. "_core"
         self.path = path
         self.text = text
-        self.tree = ast.parse(text, filename=path)
+        self.tree = ast.fix_missing_locations(_Canon().visit(ast.parse(text, filename=path)))
         self.funcs: Dict[str, ast.AST] = {}  # qualname -> FunctionDef (last definition wins, all kept in funcs_all)
         self.funcs_all: Dict[str, List[ast.AST]] = {}
         self.classes: Dict[str, ast.ClassDef] = {}
